@@ -262,7 +262,7 @@ fn oracle(case: &[u8], obs: &mut Obs) -> Result<(), String> {
     f.secs[ni].hdr.sh_addralign = nalign;
     {
         let l = c.below(30) as usize;
-        let mut body = m::enc_bytes(enc, |w| m::Chdr { ch_type: 1, ch_reserved: 0, ch_size: c.val(32), ch_addralign: c.val(16) }.write(w));
+        let mut body = m::enc_bytes(enc, |w| m::Chdr { ch_type: if c.bool() { 1 } else { c.val(32) as u32 }, ch_reserved: 0, ch_size: c.val(32), ch_addralign: c.val(16) }.write(w));
         let pl = c.bytes(l);
         body.extend_from_slice(&pl);
         if c.chance(90) {
@@ -317,7 +317,7 @@ fn oracle(case: &[u8], obs: &mut Obs) -> Result<(), String> {
     const TYPES: [u32; 9] = [m::SHT_PROGBITS, m::SHT_STRTAB, m::SHT_NOTE, m::SHT_NOBITS, m::SHT_REL, m::SHT_RELA, m::SHT_SYMTAB, m::SHT_DYNAMIC, 0x7000_0001];
     for _ in 0..nfab {
         let (o, s) = range_pair(&mut c, len, &mut pool);
-        f.secs.push(Sec { name: b".fab".to_vec(), hdr: m::Shdr { sh_type: *c.pick(&TYPES), sh_flags: if c.chance(50) { m::SHF_COMPRESSED } else { 0 }, sh_offset: o, sh_size: s, sh_addralign: *c.pick(&[0u64, 1, 4, 8]), ..Default::default() }, fixed_range: true, no_space: true, ..Default::default() });
+        f.secs.push(Sec { name: b".fab".to_vec(), hdr: m::Shdr { sh_type: *c.pick(&TYPES), sh_flags: if c.chance(50) { m::SHF_COMPRESSED } else { 0 }, sh_offset: o, sh_size: s, sh_addralign: *c.pick(&[0u64, 1, 4, 8]), sh_entsize: if c.bool() { 0 } else { c.val(16) }, ..Default::default() }, fixed_range: true, no_space: true, ..Default::default() });
     }
     let nseg = 1 + c.below(4) as usize;
     for k in 0..nseg {
@@ -330,7 +330,7 @@ fn oracle(case: &[u8], obs: &mut Obs) -> Result<(), String> {
             _ => c.val(64),
         };
         let mem = if mem == s { s.wrapping_add(1) } else { mem };
-        f.segs.push(Seg { hdr: m::Phdr { p_type: *c.pick(&[m::PT_LOAD, m::PT_NOTE, m::PT_NOTE, m::PT_DYNAMIC, 0x6474_e551]), p_offset: o, p_filesz: s, p_memsz: mem, p_align: nalign, ..Default::default() }, covers: None });
+        f.segs.push(Seg { hdr: m::Phdr { p_type: *c.pick(&[m::PT_LOAD, m::PT_NOTE, m::PT_NOTE, m::PT_DYNAMIC, 0x6474_e551, m::PT_NULL, m::PT_NULL]), p_offset: o, p_filesz: s, p_memsz: mem, p_align: if c.bool() { nalign } else { *c.pick(&[0u64, 8, 16, 0x1000]) }, p_vaddr: c.val(64), p_paddr: c.val(64), ..Default::default() }, covers: None });
     }
     // the tables were laid out before the fabricated entries were added: rebuild (the layout of bodies is
     // unchanged because fabricated sections occupy no space), then draw again against the final length
@@ -343,7 +343,7 @@ fn oracle(case: &[u8], obs: &mut Obs) -> Result<(), String> {
     let mut extra_p = vec![];
     for _ in 0..2 {
         let (o, s) = range_pair(&mut c, data.len() as u64, &mut pool);
-        extra_s.push(m::Shdr { sh_type: *c.pick(&TYPES), sh_flags: if c.chance(40) { m::SHF_COMPRESSED } else { 0 }, sh_offset: o, sh_size: s, sh_addralign: 4, ..Default::default() });
+        extra_s.push(m::Shdr { sh_type: *c.pick(&TYPES), sh_flags: if c.chance(40) { m::SHF_COMPRESSED } else { 0 }, sh_offset: o, sh_size: s, sh_addralign: 4, sh_entsize: if c.bool() { 0 } else { c.val(16) }, ..Default::default() });
         let (o, s) = range_pair(&mut c, data.len() as u64, &mut pool);
         extra_p.push(m::Phdr { p_type: *c.pick(&[m::PT_LOAD, m::PT_NOTE]), p_offset: o, p_filesz: s, p_memsz: s ^ 0x10, p_align: 4, ..Default::default() });
     }
